@@ -45,6 +45,9 @@ type c14World struct {
 	idle                           []chain.Account // registered, never proved anything
 	big                            *sFile          // the file every active provider proves (one replica slot left free)
 	fired                          int
+	rewardWorld                    bool            // short proof and check windows: provers must keep proving, those that stop are dropped
+	lapsing                        map[string]bool // provers that have stopped proving
+	droppedWithOpenForm            int
 }
 
 func c14Key(kind, prover string, f *sFile) string { return kind + "|" + prover + "|" + f.key() }
@@ -356,12 +359,16 @@ func (w *c14World) signSpelled(kind string, signer chain.Account, prover string,
 	return "", ""
 }
 
-func newC14World(c *chain.Chain, n, m int64, nProv, nSameDomain, nIdle, nUnreg int, ipB string, nSingleLabel int) *c14World {
-	w := &c14World{storSim: newStorSim(c, 5), owner: chain.Acc(0), ip: map[string]string{}, active: map[string]bool{}, forms: map[string]*c14Form{}, n: n, m: m}
+func newC14World(c *chain.Chain, n, m int64, nProv, nSameDomain, nIdle, nUnreg int, ipB string, nSingleLabel int, rewardWorld bool) *c14World {
+	w := &c14World{storSim: newStorSim(c, 5), owner: chain.Acc(0), ip: map[string]string{}, active: map[string]bool{}, forms: map[string]*c14Form{}, n: n, m: m,
+		rewardWorld: rewardWorld, lapsing: map[string]bool{}}
 	w.setParams(func(p *storagetypes.Params) {
 		p.ChunkSize, p.ProofWindow, p.CheckWindow, p.CollateralPrice, p.AttestFormSize, p.AttestMinToPass = 1024, 100000, 1000003, 1000, n, m
+		if rewardWorld {
+			p.ProofWindow, p.CheckWindow = 4, 3
+		}
 	})
-	w.logf("params AttestFormSize=%d AttestMinToPass=%d", n, m)
+	w.logf("params AttestFormSize=%d AttestMinToPass=%d; reward blocks within reach (ProofWindow 4, CheckWindow 3): %v", n, m, rewardWorld)
 	must2(w.buyStorage(w.owner, w.owner.Bech, 30, 2_000_000_000, ""))
 	add := func(i int, ip string, register bool) chain.Account {
 		a := chain.Acc(i)
@@ -420,7 +427,7 @@ func TestC14(t *testing.T) {
 	rec := ev.For("C14")
 	rec.Describe("stateful fork-mode histories (rapid state machine): 0-10 (mostly 6-10) registered providers with distinct domains that each hold a proof (populations smaller than the form size included), 0-2 sharing the prover's domain, 0-2 registered but idle, 0-2 unregistered accounts; (AttestFormSize n, AttestMinToPass m) with 0 <= m <= n <= 6; provers request attestation forms, anybody requests report forms, then arbitrary attest/report messages by named, unnamed and repeated signers and the prover itself against open, never-existing and consumed forms, second requests after consumption, height advancing between messages. Model: who really signed each open form (named providers only). Oracle on effects: after every message the LastProven / list membership of every (account,file) is compared with the state before; a change is allowed only for the pair the form is about, only through a signature of a provider named on an open, not yet consumed form, only when the distinct named signers so far (this one included) number at least m, and only in the form\u2019s own way (attestation: deadline = current height; report: removal); after such an effect the form counts as consumed whatever the code keeps in its store. A fresh form must name distinct registered providers that hold a proof, never the prover, and carry no signatures. Whether forms are kept, dropped or replaced, and whether a completed quorum acts at all, is left to the code (counted, not asserted). Non-trivial = a repeated or unnamed signature arrived before quorum; distinct = distinct traces.",
 		"if the prover has already been removed when a quorum completes, the code errors out and keeps the form; only 'no effect' is asserted there",
-		"CheckWindow is set out of reach so that reward blocks do not interfere")
+		"in three worlds of four CheckWindow is set out of reach so that reward blocks do not interfere; in the fourth (ProofWindow 4, CheckWindow 3) every listed prover keeps proving except the ones a 'lapse' action has stopped, which reward blocks then drop while forms about them are still open")
 	c := chain.New(chain.GenesisOpts{NumAccounts: 1, Balance: sdk.NewCoins(sdk.NewInt64Coin("ujkl", 1_000_000_000_000)),
 		Faucet: sdk.NewCoins(sdk.NewInt64Coin("ujkl", 1_000_000_000))})
 	defer c.Close()
@@ -433,7 +440,7 @@ func TestC14(t *testing.T) {
 		m := rapid.Int64Range(0, n).Draw(rt, "minToPass")
 		w := newC14World(c, n, m, rapid.OneOf(rapid.IntRange(6, 10), rapid.IntRange(0, 10)).Draw(rt, "providers"), rapid.IntRange(0, 2).Draw(rt, "sameDomain"), rapid.IntRange(0, 2).Draw(rt, "idle"), rapid.IntRange(0, 2).Draw(rt, "unregistered"),
 			rapid.SampledFrom([]string{"https://b.otherprover.net:3333", "https://b.otherprover.net:3333", "http://localhost:3333", "http://storage-node", "http://10.0.0.5:3333", "https://s0.dom0.com"}).Draw(rt, "proverIP"),
-			rapid.IntRange(0, 2).Draw(rt, "singleLabelHosts"))
+			rapid.IntRange(0, 2).Draw(rt, "singleLabelHosts"), rapid.IntRange(0, 3).Draw(rt, "rewardBlocksWithinReach") == 0)
 		fail := func(sig, msg string) {
 			if sig != "" {
 				failf(rt, rec, sig, w.trace, "%s", msg)
@@ -528,9 +535,98 @@ func TestC14(t *testing.T) {
 			},
 			"advance": func(rt *rapid.T) {
 				for i := rapid.IntRange(1, 3).Draw(rt, "blocks"); i > 0; i-- {
+					if w.rewardWorld { // everybody who has not stopped keeps proving, so that reward blocks drop only the lapsed
+						for _, k := range w.sortedPairKeys() {
+							pr := w.pairs[k]
+							if w.lapsing[pr.Prover] {
+								continue
+							}
+							for _, a := range w.everyone {
+								if a.Bech == pr.Prover {
+									w.prove(a, pr.File)
+								}
+							}
+						}
+					}
 					sig, msg := w.nextBlock(6*time.Second, 0)
 					fail(sig, msg)
 				}
+				if w.rewardWorld {
+					for _, fm := range w.forms {
+						if !w.isListed(fm.Prover, fm.File) && !fm.Stuck {
+							w.droppedWithOpenForm++
+						}
+					}
+				}
+			},
+			// a report form collects all signatures but the deciding one, the reported prover then stops proving and is dropped
+			// by a reward block, and only then do the remaining judges sign: the completed form has nobody left to remove
+			"dropThenQuorum": func(rt *rapid.T) {
+				if !w.rewardWorld {
+					rt.Skip()
+				}
+				p, f := drawTarget(rt)
+				if !w.isListed(p.Bech, f) || w.lapsing[p.Bech] {
+					rt.Skip()
+				}
+				key := c14Key("report", p.Bech, f)
+				if w.forms[key] == nil {
+					fail(w.request("report", w.everyone[rapid.IntRange(0, len(w.everyone)-1).Draw(rt, "who")], p.Bech, f))
+				}
+				form := w.forms[key]
+				if form == nil || form.Stuck {
+					return
+				}
+				byBech := map[string]chain.Account{}
+				for _, a := range w.everyone {
+					byBech[a.Bech] = a
+				}
+				var rest []string
+				for _, nm := range form.Named {
+					if !form.Signed[nm] {
+						rest = append(rest, nm)
+					}
+				}
+				for len(rest) > 0 && int64(len(form.Signed)) < w.m-1 {
+					fail(w.sign("report", byBech[rest[0]], p.Bech, f))
+					rest = rest[1:]
+				}
+				if w.forms[key] != form || form.Stuck {
+					return
+				}
+				w.lapsing[p.Bech] = true
+				w.logf("%s stops proving", short(p.Bech))
+				for i := 0; i < 12 && w.isListed(p.Bech, f); i++ {
+					for _, k := range w.sortedPairKeys() {
+						if pr := w.pairs[k]; !w.lapsing[pr.Prover] {
+							w.prove(byBech[pr.Prover], pr.File)
+						}
+					}
+					sig, msg := w.nextBlock(6*time.Second, 0)
+					fail(sig, msg)
+				}
+				if !w.isListed(p.Bech, f) {
+					w.droppedWithOpenForm++
+				}
+				for _, nm := range rest {
+					if w.forms[key] != form {
+						break
+					}
+					fail(w.sign("report", byBech[nm], p.Bech, f))
+				}
+				if rapid.Bool().Draw(rt, "resumes") {
+					w.lapsing[p.Bech] = false
+				}
+			},
+			// one of the provers under discussion stops proving (or resumes); where reward blocks come round, they drop it
+			// from its files while forms about it may still be open - such a form has nobody left to act on
+			"lapse": func(rt *rapid.T) {
+				if !w.rewardWorld {
+					rt.Skip()
+				}
+				p := provers[rapid.IntRange(0, 1).Draw(rt, "prover")]
+				w.lapsing[p.Bech] = !w.lapsing[p.Bech]
+				w.logf("%s stops proving: %v", short(p.Bech), w.lapsing[p.Bech])
 			},
 		})
 		// after a restart from an exported genesis nobody holds a proof record any more (they are not part of the genesis);
@@ -559,6 +655,12 @@ func TestC14(t *testing.T) {
 		}
 		if w.quorumWithoutEffect > 0 {
 			rec.Count("histories-where-a-completed-quorum-had-no-effect")
+		}
+		if w.rewardWorld {
+			rec.Count("histories-with-reward-blocks-within-reach")
+		}
+		if w.droppedWithOpenForm > 0 {
+			rec.Count("histories-where-a-reward-block-dropped-a-prover-with-an-open-form")
 		}
 		if w.replaced > 0 {
 			rec.Count("histories-where-a-request-replaced-an-open-form")
